@@ -52,7 +52,7 @@ def required_counters(tier):
         "target:origin", "target:absolute", "target:asterisk", "target:authority",
         "escape:valid", "escape:invalid",
         "prefix:exact", "prefix:under", "prefix:outside",
-        "peer:tcp", "peer:unix", "calls_compared",
+        "peer:tcp", "peer:unix", "calls_compared", "odd-version-requests",
     ]
 
 
@@ -122,7 +122,10 @@ PUNCT = b"!#$%&'*+-.^_`|~"
 RESERVED = {b"host", b"content-length", b"content-type", b"transfer-encoding", b"connection", b"expect"}
 COMMON = [b"User-Agent", b"Accept", b"Cookie", b"Accept-Language", b"X-Forwarded-For", b"Forwarded",
           b"X-Forwarded-Proto", b"X-Forwarded-Host", b"Via", b"A", b"X-Bar-Baz", b"Cache-Control", b"If-None-Match",
-          b"Te", b"Referer", b"Authorization"]
+          b"Te", b"Referer", b"Authorization",
+          # Content-* fields other than the two CGI ones keep their HTTP_ prefix
+          b"Content-Encoding", b"Content-Range", b"Content-Disposition", b"Content-MD5", b"Content-Language",
+          b"Content-Location", b"Content-Typex", b"Content-Lengths", b"Content", b"Content-"]
 SHADOW = [
     (b"Server-Name", b"evil.example"), (b"Server-Port", b"31337"), (b"Remote-Addr", b"6.6.6.6"),
     (b"Remote-Host", b"evil.example"), (b"Remote-Port", b"31337"), (b"Script-Name", b"/evil"),
@@ -794,12 +797,63 @@ def run_stream(acc, data, cfg, unix, addr, how, lazy, nreq=None, sample=False):
     return True
 
 
+ODD_VERSIONS = [b"", b" HTTP/0.9", b" HTTP/1.2", b" HTTP/2.0", b" HTTP/9.9", b" HTTP/0.0", b" HTTP/1.0", b" HTTP/1.1"]
+
+
+def run_odd_version(acc, rng, cfg, unix):
+    """Request lines without a version or with a version other than 1.0 / 1.1 (accepted and served as
+    HTTP/1.0): SERVER_PROTOCOL is a well-formed protocol string -- the client's version or the one the
+    server falls back to -- and the rest of the request-line image is unaffected."""
+    for ver in ODD_VERSIONS:
+        seg = rng.choice([b"a", b"x%20y", b"p/q", b""])
+        q = rng.choice([b"", b"?k=v", b"?"])
+        method = rng.choice([b"GET", b"POST", b"DELETE"])
+        data = method + b" /" + seg + q + ver + b"\r\nHost: o.example\r\nX-Odd: 1\r\n\r\n"
+        check_odd_version(acc, data, cfg, unix, method, q, ver)
+
+
+def check_odd_version(acc, data, cfg, unix, method, q, ver):
+    import re as _re
+
+    if True:
+        h = harness(cfg, unix)
+        res = h.run_recorded([data], addr=("127.0.0.1", 50000))
+        case = {"stream": b2s(data), "config": cfg, "unix": bool(unix), "addr": ["127.0.0.1", 50000], "how": "one", "lazy": False,
+                "odd_version": [b2s(method), b2s(q), b2s(ver)]}
+        acc.evaluations += 1
+        acc.count("odd-version-requests")
+        if res.exceptions:
+            acc.violation("exception:" + res.exceptions[0]["type"], f"exception escaped: {res.exceptions[0]}", case)
+            return
+        if not res.calls:
+            # refusing such a request line outright is acceptable
+            acc.count("odd-version-refused")
+            return
+        env = res.calls[0].environ
+        sp = env.get("SERVER_PROTOCOL")
+        allowed = {"HTTP/1.0"}
+        if ver:
+            allowed.add(ver.strip().decode())
+        else:
+            allowed.add("HTTP/0.9")
+        if not isinstance(sp, str) or not _re.fullmatch(r"HTTP/[0-9]\.[0-9]", sp) or sp not in allowed:
+            acc.violation("server-protocol", f"SERVER_PROTOCOL = {sp!r} for request line {data.split(b'\r\n')[0]!r}; acceptable {sorted(allowed)}", case)
+        if env.get("REQUEST_METHOD") != method.decode():
+            acc.violation("request-method", f"REQUEST_METHOD = {env.get('REQUEST_METHOD')!r} for {data.split(b'\r\n')[0]!r}", case)
+        if env.get("QUERY_STRING") != q[1:].decode():
+            acc.violation("query-string", f"QUERY_STRING = {env.get('QUERY_STRING')!r} for {data.split(b'\r\n')[0]!r}", case)
+        if env.get("HTTP_X_ODD") != "1":
+            acc.violation("header-missing", f"HTTP_X_ODD = {env.get('HTTP_X_ODD')!r}", case)
+
+
 def run_shard(spec):
     acc = Acc()
     rng = random.Random(spec["seed"])
     cfgs = shard_configs(spec.get("shard", 0))
     n = spec["n"]
     guard = 0
+    for cfg, unix in cfgs[spec.get("shard", 0) % 4::8]:
+        run_odd_version(acc, rng, cfg, unix)
     while acc.evaluations < n and guard < n * 4:
         guard += 1
         cfg, unix = rng.choice(cfgs)
@@ -841,6 +895,10 @@ def finish(agg, tier, coverage):
 
 def replay(case):
     acc = Acc()
+    if case.get("odd_version"):
+        m, q, v = (s2b(x) for x in case["odd_version"])
+        check_odd_version(acc, s2b(case["stream"]), case["config"], case.get("unix", False), m, q, v)
+        return acc.violations
     how = case.get("how", "one")
     run_stream(acc, s2b(case["stream"]), case["config"], case.get("unix", False),
                tuple(case.get("addr") or ("127.0.0.1", 50000)), how, case.get("lazy", False))
